@@ -480,6 +480,31 @@ def r_cancel_safe(e, R):
         raise AnalysisError(f"R-CANCEL-SAFE: {n} resolution sites found (floor 4)")
 
 
+def r_callback_lock(e, R):
+    """Future.set_result / set_exception run the user's done-callbacks
+    synchronously in the resolving thread.  A callback may re-enter the API
+    (submit, shutdown, get_reusable_executor take the shutdown lock / the
+    management lock): resolving a future while holding one of loky's
+    non-re-entrant locks deadlocks that thread for good."""
+    a = e.anchors
+    res = resolve_pred(e)
+    n = 0
+    for f, c in e.all_calls():
+        if not res(f, c):
+            continue
+        n += 1
+        held = [t for t in e.held_full(f, c) if _is_lock(e, t)]
+        # may-held through some caller counts as well: one locked path is enough to deadlock
+        may = [t for t in (e.held_at_call(f, c) | e.entry_may_held().get(f.qualname, frozenset())) if _is_lock(e, t)]
+        bad = held or may
+        R.check(not bad, "R-CALLBACK-LOCK", f"{f.short}: {norm(c)[:50]} runs the done-callbacks with no lock held", f.short, norm(c)[:80],
+                f"a future is resolved while {', '.join(_lock_name(e, t) for t in bad)} is held: done-callbacks run synchronously in this thread "
+                "and a callback that calls submit()/shutdown()/get_reusable_executor() blocks on that lock forever (the manager or feeder thread "
+                "is stuck mid-way: remaining futures unresolved, workers not killed, every later API call hangs)", e.loc(f, c))
+    if n < 4:
+        raise AnalysisError(f"R-CALLBACK-LOCK: {n} resolution sites found (floor 4)")
+
+
 def r_drop_resolves(e, R):
     a = e.anchors
     res = resolve_pred(e)
@@ -547,6 +572,94 @@ def r_drop_resolves(e, R):
             R.check(ok, "R-DROP-RESOLVES", f"{f.short}: {norm(node)} after every element was resolved", f.short,
                     norm(node), "the pending table is cleared without resolving its items", e.loc(f, node))
     R.floor("R-DROP-RESOLVES", 5)
+
+
+# ---------------------------------------------------------------------------
+# R-ITER-SNAPSHOT
+# ---------------------------------------------------------------------------
+
+SNAPSHOT_FUNCS = ("list", "tuple", "dict", "sorted", "set", "frozenset")
+MUTATORS = ("pop", "popitem", "clear", "update", "setdefault", "append", "remove", "extend", "insert")
+
+
+def _live_view(e, func, it, shared):
+    """The shared container walked live by iterating `it` (None if a snapshot)."""
+    it = e.expand(func, it)
+    if isinstance(it, ast.Call) and isinstance(it.func, ast.Name) and it.func.id in SNAPSHOT_FUNCS:
+        return None
+    if isinstance(it, ast.Call) and isinstance(it.func, ast.Attribute) and it.func.attr in ("values", "items", "keys") and not it.args:
+        o = e.objs(func, it.func.value) & shared
+        return o or None
+    o = e.objs(func, it) & shared
+    return o or None
+
+
+def r_iter_snapshot(e, R):
+    """A dict shared between threads is iterated only through a snapshot
+    (list(...)) unless every concurrent mutation is serialised with the
+    iteration by a common lock: otherwise `dictionary changed size during
+    iteration` kills the iterating thread (the manager: every future pending)."""
+    a = e.anchors
+    shared = {"worker table": a.processes, "pending table": a.pending}
+    allshared = frozenset().union(*shared.values())
+    # mutation sites: (func, node, held tokens)
+    muts = []
+    for f in e.prog.funcs.values():
+        if f.module.name == "__user__":
+            continue
+        g = None
+        for n in func_nodes(f):
+            objs = None
+            if isinstance(n, ast.Subscript) and isinstance(n.ctx, (ast.Store, ast.Del)):
+                objs = e.objs(f, n.value) & allshared
+            elif isinstance(n, ast.Call) and isinstance(n.func, ast.Attribute) and n.func.attr in MUTATORS:
+                objs = e.objs(f, n.func.value) & allshared
+            if objs:
+                g = g or e.cfg(f)
+                cn = cfg_nodes(e, f, n)
+                h = None
+                for c_ in cn:
+                    hh = e.held(f)[c_] | e.entry_held().get(f.qualname, frozenset())
+                    h = hh if h is None else h & hh
+                muts.append((f, n, frozenset(objs), h or frozenset()))
+    n_iter = 0
+    for f in e.prog.funcs.values():
+        if f.module.name == "__user__":
+            continue
+        for n in func_nodes(f):
+            iters = []
+            if isinstance(n, (ast.For, ast.comprehension)):
+                iters.append(n.iter)
+            for it in iters:
+                objs = _live_view(e, f, it, allshared)
+                if not objs:
+                    continue
+                n_iter += 1
+                cn = cfg_nodes(e, f, it)
+                h = None
+                for c_ in cn:
+                    hh = e.held(f)[c_] | e.entry_held().get(f.qualname, frozenset())
+                    h = hh if h is None else h & hh
+                h = h or frozenset()
+                froles = a.roles_of(f.qualname)
+                bad = None
+                for mf, mn, mobjs, mh in muts:
+                    if not (mobjs & objs):
+                        continue
+                    mroles = a.roles_of(mf.qualname)
+                    concurrent = bool((mroles - froles) or (froles - mroles) or "USER" in (mroles & froles)) and mf is not f
+                    if concurrent and not (h & mh):
+                        bad = (mf, mn)
+                        break
+                name = [k for k, v in shared.items() if v & objs][0]
+                R.check(bad is None, "R-ITER-SNAPSHOT", f"{f.short}: live iteration `{norm(it)[:50]}` over the {name} is serialised with every mutation", f.short,
+                        f"for ... in {norm(it)[:70]}",
+                        f"the {name} is iterated live (no list(...) snapshot) while {bad[0].short if bad else ''} may `{norm(bad[1])[:40] if bad else ''}` it "
+                        "from another thread without a common lock: `RuntimeError: dictionary changed size during iteration` in the iterating thread",
+                        e.loc(f, it))
+    R.info["live_iterations_of_shared_tables"] = n_iter
+    if not n_iter:
+        R.ok("R-ITER-SNAPSHOT", f"every iteration over the shared tables goes through a snapshot ({len(muts)} mutation sites considered)", None)
 
 
 # ---------------------------------------------------------------------------
